@@ -262,7 +262,8 @@ def spec_on_vectors(run, tier, ulaw):
 def run(tier, seed):
     run = common.Run("C13", tier, seed)
     rng = random.Random(seed)
-    for cfg, name in (("Shorten_tiny.cfg", "Shorten(tiny)"), ("Shorten_lpc.cfg", "Shorten(lpc)"),
+    for cfg, name in (("Shorten_tiny.cfg" if tier == "quick" else "Shorten_tiny_thorough.cfg", "Shorten(tiny)"), ("Shorten_lpc.cfg", "Shorten(lpc)"),
+                      ("Shorten_bs.cfg", "Shorten(block sizes that shrink and grow back)"),
                       ("Shorten_tiny2.cfg" if tier == "quick" else "Shorten_tiny2_thorough.cfg", "Shorten(two channels, shift changing inside a frame)")):
         r = common.tlc("MC_Shorten", cfg, timeout=3000, jvm=("-Xss64m",))
         if r.violated:
